@@ -5,6 +5,7 @@ import (
 	"go/ast"
 	"go/token"
 	"go/types"
+	"sort"
 	"strings"
 
 	"jetverif/an"
@@ -114,7 +115,7 @@ func runC09(c *an.Ctx) {
 						strCalls = append(strCalls, e)
 					}
 				case *ast.BinaryExpr:
-					if e.Op == token.EQL {
+					if e.Op == token.EQL || e.Op == token.NEQ {
 						for _, pr := range [][2]ast.Expr{{e.X, e.Y}, {e.Y, e.X}} {
 							kc, isCall := an.Unparen(pr[0]).(*ast.CallExpr)
 							if isCall && an.CalleeName(info, kc) == "(reflect.Value).Kind" && an.Str(an.Unparen(pr[1])) == "reflect.String" {
@@ -135,7 +136,7 @@ func runC09(c *an.Ctx) {
 				for _, st := range pr.At[sc] {
 					known := false
 					for _, kt := range kindTests {
-						if v, k := pr.X.Truth(kt, st); k && v {
+						if v, k := pr.X.Truth(kt, st); k && v == (kt.Op == token.EQL) {
 							known = true
 						}
 					}
@@ -559,40 +560,106 @@ func c09ret(c *an.Ctx) {
 	for _, call := range discarded {
 		c.Bad("C09.ret", "(*Runtime).executeList/discard:"+an.CalleeName(info, call), call.Pos(), nil, "the value of a nested execution (%s) is discarded: a return executed inside it is lost", an.Str(call.Fun))
 	}
-	// merges: result = tmp must be under tmp.IsValid()
+	// merges: the result takes the value of a nested execution only where that value is known to be valid —
+	// decided on the paths: a copy of a nested value (a helper's parameter, a renamed temporary) is that value, and
+	// the result assigned to itself (through such a copy) changes nothing
 	merged := map[types.Object]bool{}
-	var mergeStmts []ast.Node
-	mergeTmp := map[ast.Node]types.Object{}
-	an.InspectOwn(el, func(n ast.Node) bool {
-		as, ok := n.(*ast.AssignStmt)
-		if !ok || len(as.Lhs) != 1 || len(as.Rhs) != 1 {
-			return true
+	mergeSeen := map[types.Object]bool{}
+	{
+		tmpByKey := map[string]types.Object{}
+		viaOf := map[types.Object]types.Object{}
+		okTmp := map[types.Object]bool{}
+		posTmp := map[types.Object]token.Pos{}
+		resultKey := ""
+		isValue := func(e ast.Expr) bool {
+			tv, ok := info.Types[e]
+			return ok && tv.Type != nil && an.TypeName(tv.Type) == "reflect.Value"
 		}
-		lid, ok1 := as.Lhs[0].(*ast.Ident)
-		rid, ok2 := an.Unparen(as.Rhs[0]).(*ast.Ident)
-		if ok1 && ok2 && an.ObjOf(info, lid) == types.Object(result) {
-			if o := an.ObjOf(info, rid); tmpOf[o] != nil {
-				mergeStmts = append(mergeStmts, as)
-				mergeTmp[as] = o
+		mx := p.NewExplorer(el, an.Hooks{PreAssign: func(x *an.Explorer, lhs, rhs ast.Expr, stmt ast.Node, st *an.State) {
+			lid, ok := an.Unparen(lhs).(*ast.Ident)
+			if !ok || lid.Name == "_" {
+				return
+			}
+			lk, ok := x.Key(lid)
+			if !ok {
+				return
+			}
+			lobj := an.ObjOf(info, lid)
+			if lobj == types.Object(result) {
+				resultKey = lk
+			}
+			if tmpOf[lobj] != nil {
+				tmpByKey[lk] = lobj
+			}
+			root := ""
+			var rid *ast.Ident
+			if rhs != nil {
+				if id, ok := an.Unparen(rhs).(*ast.Ident); ok && isValue(id) {
+					rid = id
+					if rk, ok := x.Key(id); ok {
+						root = rk
+						if r := st.Get("cp:" + rk); r != "" {
+							root = r
+						}
+						if o := an.ObjOf(info, id); tmpOf[o] != nil {
+							tmpByKey[rk] = o
+						}
+						if an.ObjOf(info, id) == types.Object(result) {
+							resultKey = rk
+						}
+					}
+				}
+			}
+			if lobj == types.Object(result) && rid != nil && root != "" {
+				if o := tmpByKey[root]; o != nil {
+					valid := false
+					rk, _ := x.Key(rid)
+					for _, k := range []string{rk, root} {
+						if an.FactIs(st, an.PlainKey(k)+".IsValid()", true) {
+							valid = true
+						}
+					}
+					if _, seen := okTmp[o]; !seen {
+						okTmp[o], posTmp[o] = true, lhs.Pos()
+					}
+					if !valid {
+						okTmp[o], posTmp[o] = false, lhs.Pos()
+					}
+					// the variable the value travelled through (a copy of the nested value) has reached the result too
+					if via := an.ObjOf(info, rid); via != nil && via != o && tmpOf[via] != nil {
+						viaOf[via] = o
+					}
+				}
+			}
+			// what the assigned variable is a copy of from here on
+			if root != "" && lobj != types.Object(result) {
+				st.Set("cp:"+lk, root)
+			} else {
+				st.Set("cp:"+lk, "")
+			}
+			_ = resultKey
+		}})
+		mx.Run(nil)
+		c.States += mx.Visited
+		var objs []types.Object
+		for o := range okTmp {
+			objs = append(objs, o)
+		}
+		sort.Slice(objs, func(i, j int) bool { return objs[i].Pos() < objs[j].Pos() })
+		for via, o := range viaOf {
+			mergeSeen[via] = true
+			if okTmp[o] {
+				merged[via] = true
 			}
 		}
-		return true
-	})
-	pr := p.ProbeFn(el, mergeStmts, an.Hooks{})
-	c.States += pr.X.Visited
-	for _, ms := range mergeStmts {
-		o := mergeTmp[ms]
-		ok := len(pr.At[ms]) > 0
-		for _, st := range pr.At[ms] {
-			if !an.FactIs(st, an.RoleOf(o)+".IsValid()", true) {
-				ok = false
+		for _, o := range objs {
+			mergeSeen[o] = true
+			if okTmp[o] && mx.Undecided == "" {
+				merged[o] = true
+				c.OK("C09.ret", "(*Runtime).executeList/merge:"+an.RoleOf(o), posTmp[o], "the nested value %q is merged only when it is valid", o.Name())
+			} else {
+				c.Bad("C09.ret", "(*Runtime).executeList/merge:"+an.RoleOf(o), posTmp[o], nil, "the nested value %q overwrites the result without an IsValid() guard: a list without return erases an earlier return value", o.Name())
 			}
-		}
-		if ok {
-			merged[o] = true
-			c.OK("C09.ret", "(*Runtime).executeList/merge:"+an.RoleOf(o), ms.Pos(), "the nested value %q is merged only when it is valid", o.Name())
-		} else {
-			c.Bad("C09.ret", "(*Runtime).executeList/merge:"+an.RoleOf(o), ms.Pos(), nil, "the nested value %q overwrites the result without an IsValid() guard: a list without return erases an earlier return value", o.Name())
 		}
 	}
 	n := 0
@@ -602,13 +669,7 @@ func c09ret(c *an.Ctx) {
 			continue // handed to the caller, where the helper call is a nested execution of its own
 		}
 		if !merged[o] {
-			found := false
-			for _, ms := range mergeStmts {
-				if mergeTmp[ms] == o {
-					found = true
-				}
-			}
-			if !found {
+			if !mergeSeen[o] {
 				c.Bad("C09.ret", "(*Runtime).executeList/merge:"+an.RoleOf(o), call.Pos(), nil, "the value of the nested execution held in %q never reaches executeList's result: a return executed inside it is lost", o.Name())
 			}
 		}
